@@ -20,6 +20,19 @@
 //!   5. `allocator-discipline`: the complete replay (`Model`/`judge`, a mirror of the Lean checker
 //!      `Alloc/Trace.lean: judgeStep` over `Alloc/Model.lean: step`) accepts every event, and the
 //!      `nodes` / `audit` lines emitted at quiescent points are `ok`;
+//!   6. (without the hooks; `probe` lines) `capacity`: with no dead node in the store, exactly
+//!      `capacity − num_inner_nodes()` distinct nodes can be created before `add_node` fails
+//!      (minus the slots held by threads attached for good), after partial use and after
+//!      dropping everything;
+//!   7. (without the hooks; after `session`, `sless`, `probe`, `verify` lines) `node-aliasing` /
+//!      `duplicate-node`: every tree handle was created for a known cube (generation, depth, path):
+//!      equal handles ⇔ equal cubes (compared without touching the manager); then under the
+//!      exclusive lock `structure` / `ref-count` / `dangling-handle`: every stored node is listed
+//!      once, at its level, above its children, no two nodes of a level have the same children,
+//!      `ref_count` = handles + stored parent edges + references kept by the manager (ZBDD chain),
+//!      every handle points to a stored node; `semantics`: `eval_edge` of every tree handle is true
+//!      on its cube and false when a forced variable is flipped (all of them up to 20 000 handles,
+//!      3 per handle above);
 //!   and appends the events in the line format of the Lean driver `alloc` to a side file
 //!   (`--trace-out F`, default `<oracle-out>.trace`).
 //! * **trace mode** (`--mode trace`; stream `alloc-trace`, protocol `alloc`): `gen --trace-from F`
@@ -46,10 +59,26 @@
 //! par <threads> <nops> <seed> <unit>      2–4 application threads fill/drop/gc/… concurrently
 //! nested <fill|gc|sessions|drop …>        the line runs inside `with_manager_shared` of manager A:
 //!                                         no local state for the traced store (the *foreign* paths)
+//! session <tok>…                         ONE session of the main thread: a<N> N new nodes (a new tree), d<permille> drop
+//!                                         the newest handles of that tree, g gc, n num_inner_nodes; then oracle (7)
+//! sless <threads> <tok>…                  ONE session of the main thread in which <threads> scoped threads WITHOUT an
+//!                                         allocation session use the edge-level API on the borrowed manager: a<N> together
+//!                                         N new nodes (aL+<k>: k more than there are slots on the shared free lists),
+//!                                         d<permille> every thread drops the newest handles of its tree, g thread 0
+//!                                         collects; then oracle (7)
+//! probe                                   the capacity oracle (6), then oracle (7)
+//! verify                                  oracle (7)
 //! recover                                 the conservation oracle (2)
 //! countcheck                              the node-count oracle (4)
 //! fin                                     drop everything, final `nodes`/`audit`, drop the manager
 //! ```
+//! A store that handed out a live slot (oracle 1) or fails oracle (7) with two nodes in one slot is
+//! leaked and the rest of its case skipped (`skipped` lines): dropping handles or collecting would
+//! touch freed memory.
+//!
+//! Generator flag: `--only p1,p2` writes only the cases whose names start with one of the prefixes
+//! (cases `chunkgc-*`: a fresh chunk and a collection in one session; `sessionless-*`: threads
+//! without an allocation session exhaust the shared free lists).
 //! Run flags: `--trace-out F`, `--trace-cap N` (side-file lines per case, default 1 200 000; a
 //! truncated case is a replayable prefix), `--fix-count 1` (the `store` header declares the patched
 //! `node_count` bookkeeping, `Cfg.fixCount` of the model; default 0 = the code as it is).
@@ -90,6 +119,12 @@ enum Variant {
     GcKeepsHead,
     /// (c) the guard's drop ignores a non-empty local list
     GuardIgnoresList,
+    /// (d) `return_preallocated` ends the list of the chunk remainder with 0 instead of linking it in
+    /// front of the thread-local list (the slots freed in the session are lost)
+    RemainderDropsList,
+    /// (e) `get_slot_from_shared` without local state advances the head of the top list in place and
+    /// keeps the exhausted head on the stack
+    ForeignKeepsHead,
 }
 
 #[derive(Clone, Copy, PartialEq, Eq, Debug)]
@@ -341,6 +376,8 @@ impl Model {
             let nx = self.use_free_slot(id);
             if nx != 0 {
                 self.stack.push(nx);
+            } else if self.variant == Variant::ForeignKeepsHead {
+                self.stack.push(id);
             }
             self.set_cell(id, LIVE);
             Obs::Alloc { id, src: Src::ForeignList, next: nx }
@@ -426,7 +463,7 @@ impl Model {
         let d = l.delta;
         if start % self.chunk != 0 {
             let stop = (start / self.chunk + 1) * self.chunk;
-            self.set_cell(stop - 1 + self.terms, Self::free_cell(l.next));
+            self.set_cell(stop - 1 + self.terms, Self::free_cell(if self.variant == Variant::RemainderDropsList { 0 } else { l.next }));
             let a = start + self.terms;
             for i in 0..(stop - 1 - start) {
                 self.set_cell(a + i, Self::free_cell(a + i + 1));
@@ -1037,6 +1074,38 @@ fn neg_cases(w: &mut dyn Write) {
         l.push("audit".into());
         cases.push(("neg-c-guard-ignores-list".into(), l));
     }
+    // (d) the chunk remainder is not linked in front of the slots freed in the session
+    {
+        let mut ops: Vec<Op> = vec![Op::Begin(0)];
+        ops.extend(rep(Op::Alloc(0), 2)); // a fresh chunk: slots 2, 3
+        ops.push(Op::Free(0, 2)); // freed in the same session
+        ops.push(Op::End(0)); // the remainder 4 -> 5 must continue with 2
+        ops.push(Op::Begin(0));
+        ops.extend(rep(Op::Alloc(0), 3)); // 4, 5 (link 0 instead of 2), then a new chunk instead of slot 2
+        ops.push(Op::End(0));
+        ops.push(Op::Begin(0));
+        ops.extend(rep(Op::Alloc(0), 12)); // the defective code runs out of memory one slot early
+        ops.push(Op::End(0));
+        let mut l = synth(Variant::RemainderDropsList, 16, 4, 2, 2, &ops);
+        l.push("audit".into());
+        cases.push(("neg-d-remainder-drops-list".into(), l));
+    }
+    // (e) a thread without local state keeps the exhausted head on the shared stack
+    {
+        let mut ops: Vec<Op> = vec![Op::Begin(0)];
+        ops.extend(rep(Op::Alloc(0), 6));
+        ops.extend([Op::Free(0, 3), Op::Free(0, 4)]);
+        ops.push(Op::End(0)); // remainder 8 -> 9 -> 4 -> 3 on the shared stack
+        ops.extend(rep(Op::Alloc(1), 4)); // thread 1 has no session: 8, 9, 4, 3 (the last slot of the list)
+        ops.extend(rep(Op::Alloc(1), 2)); // the stale head: slot 3 again, twice
+        ops.push(Op::Begin(0));
+        ops.push(Op::Alloc(0)); // … and a session pops the stale head as a list
+        ops.push(Op::End(0));
+        let mut l = synth(Variant::ForeignKeepsHead, 16, 4, 2, 2, &ops);
+        l.push("nodes 8".into());
+        l.push("audit".into());
+        cases.push(("neg-e-foreign-keeps-head".into(), l));
+    }
     // the same operations logged by the faithful code: everything `ok` (sanity of the synthesis)
     {
         let mut ops: Vec<Op> = vec![Op::Attach(2), Op::Begin(0)];
@@ -1121,7 +1190,25 @@ fn generate(cfg: &GenCfg, rng: &mut Rng, w: &mut dyn Write) {
         neg_cases(w);
         return;
     }
-    gen_scripts(cfg, rng, w);
+    match cfg.extra.get("only") {
+        // `--only p1,p2`: only the cases whose names start with one of the prefixes (the scripts of a
+        // case do not depend on which other cases are written)
+        Some(only) => {
+            let prefixes: Vec<&str> = only.split(',').filter(|p| !p.is_empty()).collect();
+            let mut buf: Vec<u8> = Vec::new();
+            gen_scripts(cfg, rng, &mut buf);
+            let mut keep = false;
+            for line in String::from_utf8(buf).unwrap().lines() {
+                if let Some(name) = line.strip_prefix("case ") {
+                    keep = prefixes.iter().any(|p| name.starts_with(p));
+                }
+                if keep {
+                    writeln!(w, "{line}").unwrap();
+                }
+            }
+        }
+        None => gen_scripts(cfg, rng, w),
+    }
 }
 
 
@@ -1509,6 +1596,85 @@ fn gen_scripts(cfg: &GenCfg, rng: &mut Rng, w: &mut dyn Write) {
         g.line("fin");
         s.gc();
     }
+
+    // The cases below draw from a generator of their own: the scripts above are the same as before.
+    let mut r2 = Rng::new(cfg.seed.wrapping_mul(0x9E37_79B9_7F4A_7C15) ^ 0xC05A_110C);
+    let rng = &mut r2;
+
+    // --- 9. a fresh chunk AND a collection in ONE session (`chunkgc`): at the end of the session the
+    // rest of the partly used chunk must be linked IN FRONT OF the slots the thread freed in the
+    // session. The first session of a manager takes the rest of chunk 0 (returned by the session
+    // that created the literals) and then, beyond 65 536 nodes, a fresh chunk. `probe`: the capacity
+    // without the hooks.
+    let chunkgc: Vec<(u64, u64)> = if th { vec![(140_000, 1), (200_000, 1), (140_000, 2), (270_000, 1), (200_000, 3), (140_000, 1)] } else { vec![(140_000, 1), (200_000, 1), (140_000, 2)] };
+    for (c, &(cap, workers)) in chunkgc.iter().enumerate() {
+        let kind = KINDS[c % 3];
+        let _s = g.open(&format!("chunkgc-{c}"), kind, cap, 1024, workers, 6, "0", None, 0);
+        match c % 3 {
+            0 => {
+                // drop a part, collect, reuse some of the freed slots, end
+                g.line(&format!("session a{} d{} g a{} n", rng.range(68_000, 72_000), rng.range(300, 700), rng.range(1, 200)));
+                g.line("countcheck");
+                g.line("drop all 1000");
+                g.line("gc");
+                g.line("probe"); // the full capacity
+                g.line("recover"); // (the same with the hooks)
+            }
+            1 => {
+                // two such sessions (the second one takes the list of the first and then chunk 2)
+                g.line(&format!("session a{} d500 g a100", rng.range(67_000, 71_000)));
+                g.line(&format!("session a{} d{} g a50 n", if cap >= 200_000 { 100_000 } else { 3000 }, rng.range(200, 400)));
+                g.line("countcheck");
+                g.line("probe"); // after partial use
+                g.line("recover");
+            }
+            _ => {
+                // more than a chunk of frees: the hand-over inside `free_slot` while the chunk is partly used
+                g.line(&format!("session a{} d1000 g", rng.range(69_000, 72_000)));
+                g.line(&format!("fill {} 0", rng.range(10_000, 30_000)));
+                g.line("probe");
+                g.line("drop all 1000");
+                g.line("gc");
+                g.line("probe");
+            }
+        }
+        g.line("fin");
+    }
+
+    // --- 10. threads WITHOUT an allocation session (`sessionless`): scoped threads spawned inside
+    // `with_manager_shared` use the edge-level API on the borrowed manager. After a collection handed
+    // a free list back they allocate through the shared free lists to the last slot and beyond.
+    let n_sless = if th { 12 } else { 5 };
+    for c in 0..n_sless {
+        let kind = KINDS[c % 3];
+        let big = c == 3;
+        let cap = if big { 140_000 } else { rng.range(1500, 6000) };
+        let mut s = g.open(&format!("sessionless-{c}"), kind, cap, 64, 1 + (c as u64) % 2, 6, "0", if c % 4 == 2 { Some(500) } else { None }, 0);
+        let q = if big { 30_000 } else { s.room() / 6 };
+        g.line(&format!("fill {q} 0"));
+        g.line(&format!("drop all {}", if c % 2 == 0 { 1000 } else { 600 }));
+        g.line("gc"); // the freed slots: one list on the shared stack
+        g.line(&format!("sless 1 aL+{}", rng.range(1, 4))); // one thread: through the list and beyond
+        g.line("countcheck");
+        g.line(&format!("fill {} 0", q / 2));
+        g.line("drop last 1000");
+        g.line("gc");
+        // several threads; a collection BY a session-less thread gives the slots back one by one,
+        // and they are taken again to the last one
+        g.line(&format!("sless {} aL+{} d{} g aL+{}", 2 + c % 3, rng.range(2, 6), rng.range(300, 800), rng.range(1, 3)));
+        if c % 4 == 2 {
+            g.line(&format!("nested sless 2 a{} d500 g aL+2", q / 4)); // … and inside another manager's session
+        }
+        g.line("drop half 1000");
+        g.line("gc");
+        g.line(&format!("sless 1 aL+{}", rng.range(1, 3)));
+        g.line(&format!("sessions {} adg", rng.range(3, 9)));
+        g.line("countcheck");
+        g.line("probe");
+        g.line("recover");
+        g.line("fin");
+        s.gc();
+    }
 }
 
 
@@ -1537,14 +1703,16 @@ mod real {
 #[cfg(oxidd_verif)]
 mod real {
     use super::*;
-    use std::collections::HashMap;
-    use std::sync::Mutex;
+    use std::collections::{HashMap, HashSet};
+    use std::sync::atomic::{AtomicBool, AtomicU64, Ordering::Relaxed};
+    use std::sync::{Barrier, Mutex};
     use std::time::{Duration, Instant};
 
     use oxidd::bcdd::BCDDFunction;
     use oxidd::bdd::BDDFunction;
     use oxidd::zbdd::ZBDDFunction;
-    use oxidd::{BooleanFunction, BooleanVecSet, Function, HasWorkers, Manager, ManagerRef, WorkerPool};
+    use oxidd::{BooleanFunction, BooleanVecSet, Edge, Function, HasLevel, HasWorkers, InnerNode, Manager, ManagerRef, Node, WorkerPool};
+    use oxidd_core::{Countable, LevelView};
     use oxidd_core::util::verif_alloc as va;
     use oxidd_core::util::verif_locks as vl;
 
@@ -1565,7 +1733,7 @@ mod real {
 
     /// what the scenario needs from a diagram kind
     pub trait LK: 'static + Sized {
-        type F: Function<ManagerRef: Send + Sync + Clone> + Clone + Send + Sync + 'static;
+        type F: Function<ManagerRef: Send + Sync + Clone> + Clone + Send + Sync + Eq + std::hash::Hash + 'static;
         type Aux: Send + Sync;
         const TERMS: u64;
         fn new_manager(cap: usize, cache: usize, workers: u32) -> MR<Self>;
@@ -1584,6 +1752,256 @@ mod real {
         fn set_split_depth(mref: &MR<Self>, d: Option<u32>);
         /// run `f` inside one `with_manager_shared`
         fn session(mref: &MR<Self>, f: &mut dyn FnMut());
+        /// the handles of `aux`
+        fn aux_handles(aux: &Self::Aux) -> Vec<&Self::F>;
+        /// the function of the tree handle `key`, per variable: `Some(b)`: the function is false unless
+        /// the variable has the value `b`; `None`: the function does not depend on the variable
+        fn spec(d: Dim, key: Key) -> Vec<Option<bool>>;
+        /// ONE `with_manager_shared` of the calling thread in which `threads` scoped threads run `job`
+        /// with the edge-level API on the borrowed `&Manager`: these threads have no allocation
+        /// session (`LOCAL_STORE_STATE.current_store` is not this store)
+        fn sessionless(mref: &MR<Self>, aux: &Self::Aux, d: Dim, threads: usize, job: &(dyn Fn(usize, &Sless<'_, Self::F>) + Sync));
+        /// under the exclusive lock: the unique tables against the handles (`id_audit`), then the
+        /// semantics of the keyed handles (`sem_check`, `flips` falsifying assignments each)
+        fn deep_audit(mref: &MR<Self>, d: Dim, keyed: &[(&Self::F, Key)], others: &[&Self::F], flips: usize) -> AuditOut;
+    }
+
+    /// what a session-less thread may do
+    pub struct Sless<'a, F> {
+        /// a child of a tree node (exactly one new node), created through the edge-level API
+        pub child: &'a (dyn Fn(&F, u32, bool) -> Option<F> + Sync),
+        /// `Manager::gc()` on the borrowed manager
+        pub gc: &'a (dyn Fn() -> usize + Sync),
+    }
+
+    #[derive(Default)]
+    pub struct AuditOut {
+        /// (signature, message), at most 8
+        pub fails: Vec<(String, String)>,
+        pub nodes: usize,
+        pub evals: usize,
+        /// the diagram must not be touched any more
+        pub corrupt: bool,
+    }
+
+    impl AuditOut {
+        fn fail(&mut self, sig: &str, msg: String) {
+            if self.fails.len() < 8 {
+                self.fails.push((sig.to_string(), msg));
+            }
+        }
+    }
+
+    /// Structure and reference counts through the public API, by slot ids: every stored node is
+    /// listed once, at its level, above its children, no two nodes of a level have the same
+    /// children; `ref_count` = handles of the harness + stored parent edges + references kept by the
+    /// manager itself (`internal`); every handle points to a stored node.
+    fn id_audit<M: Manager>(m: &M, handles: &HashMap<usize, usize>, internal: &[usize]) -> AuditOut
+    where
+        M::InnerNode: HasLevel,
+    {
+        let mut out = AuditOut::default();
+        let mut rc: HashMap<usize, usize> = HashMap::new();
+        let mut parents: HashMap<usize, usize> = HashMap::new();
+        let mut total = 0usize;
+        for view in m.levels() {
+            let l = view.level_no();
+            let mut dups: HashSet<Vec<(usize, usize)>> = HashSet::new();
+            for e in view.iter() {
+                total += 1;
+                let id = e.node_id();
+                let node = match m.get_node(e) {
+                    Node::Inner(n) => n,
+                    Node::Terminal(_) => {
+                        out.fail("structure", format!("the unique table of level {l} lists a terminal"));
+                        continue;
+                    }
+                };
+                if rc.insert(id, node.ref_count()).is_some() {
+                    out.corrupt = true;
+                    out.fail("node-aliasing", format!("slot {id} is listed twice in the unique tables (again at level {l}): two stored nodes share one slot"));
+                }
+                if !node.check_level(|x| x == l) {
+                    out.corrupt = true;
+                    out.fail("node-aliasing", format!("the unique table of level {l} lists slot {id}, whose node reports level {}: the slot was overwritten by another node", node.level()));
+                }
+                let mut key = Vec::new();
+                for c in node.children() {
+                    if let Node::Inner(cn) = m.get_node(&c) {
+                        if cn.level() <= l {
+                            out.corrupt = true;
+                            out.fail("structure", format!("the node in slot {id} at level {l} has a child (slot {}) at level {}", c.node_id(), cn.level()));
+                        }
+                        *parents.entry(c.node_id()).or_insert(0) += 1;
+                    }
+                    key.push((c.node_id(), c.tag().as_usize()));
+                }
+                if !dups.insert(key) {
+                    out.fail("duplicate-node", format!("level {l}: the node in slot {id} has the same children as another node of the level"));
+                }
+            }
+        }
+        out.nodes = total;
+        if total != m.num_inner_nodes() {
+            out.fail("structure", format!("the unique tables list {total} nodes, num_inner_nodes() = {}", m.num_inner_nodes()));
+        }
+        let mut int: HashMap<usize, usize> = HashMap::new();
+        for i in internal {
+            *int.entry(*i).or_insert(0) += 1;
+        }
+        if !out.corrupt {
+            let mut ids: Vec<usize> = rc.keys().copied().collect();
+            ids.sort();
+            for id in ids {
+                let (h, p, i) = (handles.get(&id).copied().unwrap_or(0), parents.get(&id).copied().unwrap_or(0), int.get(&id).copied().unwrap_or(0));
+                if rc[&id] != h + p + i {
+                    out.fail("ref-count", format!("the node in slot {id} reports ref_count {} but {} references exist ({h} handles + {p} stored parent edges + {i} kept by the manager)", rc[&id], h + p + i));
+                }
+            }
+        }
+        let mut hs: Vec<usize> = handles.keys().copied().collect();
+        hs.sort();
+        for id in hs {
+            if !rc.contains_key(&id) {
+                out.corrupt = true;
+                out.fail("dangling-handle", format!("a handle points to slot {id}, which no unique table lists"));
+            }
+        }
+        out
+    }
+
+    /// `f` is true under the two assignments that follow `spec` (free variables all false / all true)
+    /// and false when one forced variable is flipped (`flips` of them; 0: all)
+    fn sem_check<'id, F: BooleanFunction>(m: &F::Manager<'id>, f: &F, spec: &[Option<bool>], flips: usize, salt: usize) -> Result<usize, String> {
+        let e = f.as_edge(m);
+        let mut evals = 0;
+        for free in [false, true] {
+            evals += 1;
+            if !F::eval_edge(m, e, spec.iter().enumerate().map(|(v, s)| (v as u32, s.unwrap_or(free)))) {
+                return Err(format!("evaluates to false under an assignment of its own cube (free variables = {free})"));
+            }
+        }
+        let forced: Vec<usize> = spec.iter().enumerate().filter(|(_, s)| s.is_some()).map(|(v, _)| v).collect();
+        let pick: Vec<usize> = if flips == 0 || flips >= forced.len() {
+            forced.clone()
+        } else {
+            let mut p = vec![forced[0], forced[forced.len() - 1]];
+            for j in 2..flips {
+                p.push(forced[(salt.wrapping_mul(2654435761).wrapping_add(j * 7919)) % forced.len()]);
+            }
+            p.truncate(flips);
+            p
+        };
+        for x in pick {
+            evals += 1;
+            if F::eval_edge(m, e, spec.iter().enumerate().map(|(v, s)| (v as u32, if v == x { !s.unwrap() } else { s.unwrap_or(false) }))) {
+                return Err(format!("evaluates to true although variable {x} has the wrong value"));
+            }
+        }
+        Ok(evals)
+    }
+
+    /// the tautology chain of a ZBDD manager: one reference per level is kept by the manager
+    fn zbdd_chain<M: Manager>(m: &M, top: &M::Edge, ids: &mut Vec<usize>) {
+        if let Node::Inner(n) = m.get_node(top) {
+            ids.push(top.node_id());
+            let c = n.child(0);
+            zbdd_chain(m, &c, ids);
+        }
+    }
+
+    fn bool_child_on<'id, F: BooleanFunction>(m: &F::Manager<'id>, lits: &[(F, F)], d: Dim, p: &F, depth: u32, pol: bool) -> Option<F> {
+        let l = &lits[(d.nv - d.gb - 1 - depth) as usize];
+        let lit = if pol { &l.0 } else { &l.1 };
+        let e = F::and_edge(m, lit.as_edge(m), p.as_edge(m)).ok()?;
+        Some(F::from_edge(m, e))
+    }
+
+    fn zbdd_child_on<'id>(m: &<ZBDDFunction as Function>::Manager<'id>, _aux: &ZBDDFunction, d: Dim, p: &ZBDDFunction, depth: u32, pol: bool) -> Option<ZBDDFunction> {
+        let v = d.nv - d.gb - 1 - depth;
+        let c = ZBDDFunction::change_edge(m, p.as_edge(m), v).ok()?;
+        let c = ZBDDFunction::from_edge(m, c);
+        if pol {
+            let u = ZBDDFunction::union_edge(m, c.as_edge(m), p.as_edge(m)).ok()?;
+            Some(ZBDDFunction::from_edge(m, u))
+        } else {
+            Some(c)
+        }
+    }
+
+    fn bool_spec(d: Dim, key: Key) -> Vec<Option<bool>> {
+        let (generation, depth, path) = key;
+        let mut v = vec![None; d.nv as usize];
+        for i in 0..d.gb {
+            v[(d.nv - 1 - i) as usize] = Some((generation >> i) & 1 == 1);
+        }
+        for j in 0..depth {
+            v[(d.nv - d.gb - 1 - j) as usize] = Some((path >> j) & 1 == 1);
+        }
+        v
+    }
+
+    /// the family of sets as a Boolean function: the set of the root exactly, a tree step puts its
+    /// variable into every set (`pol` false) or makes it optional (`pol` true), nothing else
+    fn zbdd_spec(d: Dim, key: Key) -> Vec<Option<bool>> {
+        let (generation, depth, path) = key;
+        let mut v = vec![Some(false); d.nv as usize];
+        for i in 0..d.gb {
+            v[(d.nv - 1 - i) as usize] = Some(((generation + 1) >> i) & 1 == 1);
+        }
+        for j in 0..depth {
+            v[(d.nv - d.gb - 1 - j) as usize] = if (path >> j) & 1 == 1 { None } else { Some(true) };
+        }
+        v
+    }
+
+    /// the session-less part and the audits of a kind (`$child_on`: the edge-level child, `$internal`:
+    /// the slots referenced by the manager itself, `$spec`)
+    macro_rules! deep_part {
+        ($child_on:expr, $internal:expr, $spec:expr) => {
+            fn spec(d: Dim, key: Key) -> Vec<Option<bool>> {
+                $spec(d, key)
+            }
+            fn sessionless(mref: &MR<Self>, aux: &Self::Aux, d: Dim, threads: usize, job: &(dyn Fn(usize, &Sless<'_, Self::F>) + Sync)) {
+                mref.with_manager_shared(|m| {
+                    let child = |p: &Self::F, depth: u32, pol: bool| -> Option<Self::F> { $child_on(m, aux, d, p, depth, pol) };
+                    let gc = || m.gc();
+                    let api = Sless { child: &child, gc: &gc };
+                    std::thread::scope(|s| {
+                        for t in 0..threads {
+                            let api = &api;
+                            std::thread::Builder::new().name(format!("sless{t}")).spawn_scoped(s, move || job(t, api)).unwrap();
+                        }
+                    });
+                })
+            }
+            fn deep_audit(mref: &MR<Self>, d: Dim, keyed: &[(&Self::F, Key)], others: &[&Self::F], flips: usize) -> AuditOut {
+                mref.with_manager_exclusive(|m| {
+                    let m = &*m;
+                    let mut hc: HashMap<usize, usize> = HashMap::new();
+                    for f in keyed.iter().map(|x| x.0).chain(others.iter().copied()) {
+                        let e = f.as_edge(m);
+                        if let Node::Inner(_) = m.get_node(e) {
+                            *hc.entry(e.node_id()).or_insert(0) += 1;
+                        }
+                    }
+                    let internal: Vec<usize> = $internal(m);
+                    let mut out = id_audit(m, &hc, &internal);
+                    if !out.corrupt {
+                        for (i, (f, key)) in keyed.iter().enumerate() {
+                            match sem_check(m, *f, &Self::spec(d, *key), flips, i) {
+                                Ok(n) => out.evals += n,
+                                Err(e) => out.fail("semantics", format!("the handle of tree node (generation {}, depth {}, path {:#b}) {e}", key.0, key.1, key.2)),
+                            }
+                            if out.fails.len() >= 8 {
+                                break;
+                            }
+                        }
+                    }
+                    out
+                })
+            }
+        };
     }
 
     macro_rules! manager_part {
@@ -1680,7 +2098,11 @@ mod real {
         fn big(mref: &MR<Self>, pairs: u32) -> Option<Self::F> {
             bool_big(mref, pairs)
         }
+        fn aux_handles(aux: &Self::Aux) -> Vec<&Self::F> {
+            aux.iter().flat_map(|(a, b)| [a, b]).collect()
+        }
         manager_part!();
+        deep_part!(bool_child_on::<BDDFunction>, |_m| Vec::new(), bool_spec);
     }
 
     pub struct KBcdd;
@@ -1703,7 +2125,11 @@ mod real {
         fn big(mref: &MR<Self>, pairs: u32) -> Option<Self::F> {
             bool_big(mref, pairs)
         }
+        fn aux_handles(aux: &Self::Aux) -> Vec<&Self::F> {
+            aux.iter().flat_map(|(a, b)| [a, b]).collect()
+        }
         manager_part!();
+        deep_part!(bool_child_on::<BCDDFunction>, |_m| Vec::new(), bool_spec);
     }
 
     /// ZBDDs as families of sets: `change` / `union` create exactly one node per tree position
@@ -1737,7 +2163,20 @@ mod real {
         fn big(mref: &MR<Self>, pairs: u32) -> Option<Self::F> {
             bool_big(mref, pairs)
         }
+        fn aux_handles(aux: &Self::Aux) -> Vec<&Self::F> {
+            vec![aux]
+        }
         manager_part!();
+        deep_part!(
+            zbdd_child_on,
+            |m| {
+                let mut ids = Vec::new();
+                let t = ZBDDFunction::t(m); // (dropped before the counters are read)
+                zbdd_chain(m, t.as_edge(m), &mut ids);
+                ids
+            },
+            zbdd_spec
+        );
     }
 
     /// a breadth-first tree of distinct nodes: every `grow` creates exactly one node
@@ -1746,7 +2185,15 @@ mod real {
         nodes: Vec<(F, u32)>,
         parent: usize,
         pol: bool,
+        /// the generation of the root (which cube over the lowest `gb` variables)
+        generation: u64,
+        /// parallel to `nodes`: the polarities on the way from the root (bit j: the step from depth
+        /// j to j + 1); with `generation` and the depth this names the function of the handle
+        paths: Vec<u64>,
     }
+
+    /// the function a tree handle must denote: (generation, depth, path)
+    pub type Key = (u64, u32, u64);
 
     pub enum Grow {
         Ok,
@@ -1755,10 +2202,14 @@ mod real {
     }
 
     impl<F> Tree<F> {
-        fn new(root: F) -> Self {
-            Tree { nodes: vec![(root, 0)], parent: 0, pol: false }
+        fn new(root: F, generation: u64) -> Self {
+            Tree { nodes: vec![(root, 0)], parent: 0, pol: false, generation, paths: vec![0] }
         }
         fn grow<K: LK<F = F>>(&mut self, aux: &K::Aux, d: Dim) -> Grow {
+            self.grow_with(d, &|p, depth, pol| K::child(aux, d, p, depth, pol))
+        }
+        /// `grow` with the node creation given by the caller (the edge-level API on a borrowed manager)
+        fn grow_with(&mut self, d: Dim, child: &dyn Fn(&F, u32, bool) -> Option<F>) -> Grow {
             loop {
                 if self.parent >= self.nodes.len() {
                     return Grow::Full;
@@ -1767,9 +2218,11 @@ mod real {
                 if depth + 1 >= d.max_depth() {
                     return Grow::Full; // (breadth first: all later parents are at least as deep)
                 }
-                return match K::child(aux, d, p, depth, self.pol) {
+                return match child(p, depth, self.pol) {
                     Some(c) => {
+                        let path = self.paths[self.parent] | ((self.pol as u64) << depth);
                         self.nodes.push((c, depth + 1));
+                        self.paths.push(path);
                         if self.pol {
                             self.parent += 1;
                         }
@@ -1782,13 +2235,23 @@ mod real {
         }
         /// drop the newest handle if it is a leaf that is no future parent
         fn pop_leaf(&mut self) -> Option<F> {
-            if self.nodes.len() > self.parent + 1 { self.nodes.pop().map(|x| x.0) } else { None }
+            if self.nodes.len() > self.parent + 1 {
+                self.paths.pop();
+                self.nodes.pop().map(|x| x.0)
+            } else {
+                None
+            }
         }
         /// remove the newest `permille` of the handles
         fn take_suffix(&mut self, permille: u64) -> Vec<(F, u32)> {
             let k = (self.nodes.len() as u64 * permille / 1000) as usize;
             let at = self.nodes.len() - k;
+            self.paths.truncate(at);
             self.nodes.split_off(at)
+        }
+        /// (handle, key) of every node
+        fn keyed(&self) -> impl Iterator<Item = (&F, Key)> {
+            self.nodes.iter().zip(self.paths.iter()).map(|((f, depth), p)| (f, (self.generation, *depth, *p)))
         }
     }
 
@@ -1814,6 +2277,22 @@ mod real {
         fn num_inner_nodes(&self) -> usize;
         fn approx_num_inner_nodes(&self) -> usize;
         fn fin(self: Box<Self>);
+        /// ONE session of the main thread that runs the tokens `a<N>` (N new nodes), `d<permille>`
+        /// (drop the newest handles of the session's tree), `g` (gc), `n` (num_inner_nodes)
+        fn session_script(&mut self, toks: &[(char, u64)], tick: &mut dyn FnMut()) -> FillOut;
+        /// the roots for `sless_run` (an ordinary session of the main thread)
+        fn sless_prepare(&mut self, threads: usize) -> bool;
+        /// ONE session of the main thread in which `threads` session-less threads run the tokens:
+        /// `a<N>` (together N new nodes through the edge-level API), `d<permille>` (every thread drops
+        /// the newest handles of its tree), `g` (thread 0: `gc()`); returns also what the gc calls freed
+        fn sless_run(&mut self, threads: usize, toks: &[(char, u64)]) -> (FillOut, u64, u64);
+        /// collect, a new tree root, collect (no dead node is left), `num_inner_nodes()`, then new
+        /// nodes in one session until out of memory (at most `limit`)
+        fn probe_fill(&mut self, limit: u64, tick: &mut dyn FnMut()) -> (usize, FillOut);
+        /// the oracles that do not use the hooks: handles against keys (no access to the manager),
+        /// then, if `deep`, `LK::deep_audit`
+        fn verify(&mut self, flips: usize, deep: bool) -> AuditOut;
+        fn num_handles(&self) -> usize;
     }
 
     pub struct Eng<K: LK> {
@@ -1826,6 +2305,8 @@ mod real {
         trees: Vec<Tree<K::F>>,
         bigs: Vec<K::F>,
         next_gen: u64,
+        /// the trees of the session-less threads between `sless_prepare` and `sless_run`
+        sless: Vec<Tree<K::F>>,
     }
 
     impl<K: LK> Eng<K> {
@@ -1834,7 +2315,7 @@ mod real {
             K::add_vars(&mref, d.nv);
             K::set_split_depth(&mref, sd);
             let aux = K::aux(&mref, d);
-            Eng { mref, outer, nested: false, aux, d, sd, trees: Vec::new(), bigs: Vec::new(), next_gen: 0 }
+            Eng { mref, outer, nested: false, aux, d, sd, trees: Vec::new(), bigs: Vec::new(), next_gen: 0, sless: Vec::new() }
         }
 
         /// run `f` (inside the outer manager's session if `nested`)
@@ -1876,7 +2357,7 @@ mod real {
                             let g = gen_next % (1 << d.gb);
                             gen_next += 1;
                             match K::root(aux, d, g) {
-                                Some(r) => cur = Some(Tree::new(r)),
+                                Some(r) => cur = Some(Tree::new(r, g)),
                                 None => {
                                     out.oom = true;
                                     done = true;
@@ -1969,6 +2450,7 @@ mod real {
         fn drop_all(&mut self) {
             self.trees.clear();
             self.bigs.clear();
+            self.sless.clear();
         }
 
         fn gc(&mut self) {
@@ -1984,7 +2466,7 @@ mod real {
                 let mref = s.mref.clone();
                 // the root in a session of its own
                 let mut tree: Option<Tree<K::F>> = None;
-                K::session(&mref, &mut || tree = K::root(aux, d, g).map(Tree::new));
+                K::session(&mref, &mut || tree = K::root(aux, d, g).map(|r| Tree::new(r, g)));
                 let Some(mut tree) = tree else { return };
                 for i in 0..n {
                     K::session(&mref, &mut || {
@@ -2059,7 +2541,7 @@ mod real {
                                         let mut oom = false;
                                         K::session(mref, &mut || match K::root(aux, d, g) {
                                             Some(r) => {
-                                                let mut tr = Tree::new(r);
+                                                let mut tr = Tree::new(r, g);
                                                 for _ in 0..n {
                                                     match tr.grow::<K>(aux, d) {
                                                         Grow::Ok => {}
@@ -2106,7 +2588,7 @@ mod real {
                                         gen_next += 1;
                                         let pat = *rng.pick(&["a", "adg", "dga", "n", "aag"]);
                                         let mut tree: Option<Tree<K::F>> = None;
-                                        K::session(mref, &mut || tree = K::root(aux, d, g).map(Tree::new));
+                                        K::session(mref, &mut || tree = K::root(aux, d, g).map(|r| Tree::new(r, g)));
                                         if let Some(mut tree) = tree {
                                             for _ in 0..rng.range(2, 8) {
                                                 K::session(mref, &mut || {
@@ -2194,8 +2676,257 @@ mod real {
         fn fin(mut self: Box<Self>) {
             self.trees.clear();
             self.bigs.clear();
+            self.sless.clear();
             self.aux = None;
             // (the managers are dropped with `self`)
+        }
+
+        fn session_script(&mut self, toks: &[(char, u64)], tick: &mut dyn FnMut()) -> FillOut {
+            let gen0 = self.take_gen(toks.len() as u64 + 1);
+            self.wrap(|s| {
+                let mut out = FillOut::default();
+                let Some(aux) = s.aux.as_ref() else {
+                    out.oom = true;
+                    return out;
+                };
+                let d = s.d;
+                let mref = s.mref.clone();
+                let mut gen_next = gen0;
+                let mut done: Vec<Tree<K::F>> = Vec::new();
+                K::session(&mref, &mut || {
+                    let mut tree: Option<Tree<K::F>> = None;
+                    for &(c, n) in toks {
+                        match c {
+                            'a' => {
+                                if tree.is_none() {
+                                    let g = gen_next % (1 << d.gb);
+                                    gen_next += 1;
+                                    match K::root(aux, d, g) {
+                                        Some(r) => tree = Some(Tree::new(r, g)),
+                                        None => {
+                                            out.oom = true;
+                                            continue;
+                                        }
+                                    }
+                                }
+                                let tr = tree.as_mut().unwrap();
+                                for _ in 0..n {
+                                    match tr.grow::<K>(aux, d) {
+                                        Grow::Ok => {
+                                            out.created += 1;
+                                            if out.created % 4096 == 0 {
+                                                tick();
+                                            }
+                                        }
+                                        Grow::Oom => {
+                                            out.oom = true;
+                                            break;
+                                        }
+                                        Grow::Full => {
+                                            out.full = true;
+                                            break;
+                                        }
+                                    }
+                                }
+                            }
+                            'd' => {
+                                if let Some(tr) = tree.as_mut() {
+                                    let mut v = tr.take_suffix(n);
+                                    v.reverse();
+                                    drop(v);
+                                    if tr.nodes.is_empty() {
+                                        tree = None;
+                                    }
+                                }
+                            }
+                            'g' => K::gc(&mref),
+                            _ => {
+                                std::hint::black_box(K::num_inner_nodes(&mref));
+                            }
+                        }
+                    }
+                    done.extend(tree);
+                });
+                s.trees.extend(done);
+                out
+            })
+        }
+
+        fn sless_prepare(&mut self, threads: usize) -> bool {
+            let gen0 = self.take_gen(threads as u64);
+            self.wrap(|s| {
+                let Some(aux) = s.aux.as_ref() else { return false };
+                let d = s.d;
+                let mref = s.mref.clone();
+                let mut roots: Vec<Tree<K::F>> = Vec::new();
+                K::session(&mref, &mut || {
+                    for t in 0..threads as u64 {
+                        let g = (gen0 + t) % (1 << d.gb);
+                        if let Some(r) = K::root(aux, d, g) {
+                            roots.push(Tree::new(r, g));
+                        }
+                    }
+                });
+                // (the intermediate results of the roots are dead: collected now, by an ordinary session)
+                K::gc(&mref);
+                let ok = roots.len() == threads;
+                s.sless = roots;
+                ok
+            })
+        }
+
+        fn sless_run(&mut self, threads: usize, toks: &[(char, u64)]) -> (FillOut, u64, u64) {
+            self.wrap(|s| {
+                let mut out = FillOut::default();
+                let Some(aux) = s.aux.as_ref() else {
+                    out.oom = true;
+                    return (out, 0, 0);
+                };
+                if s.sless.len() != threads {
+                    out.oom = true;
+                    return (out, 0, 0);
+                }
+                let d = s.d;
+                let trees: Vec<Mutex<Tree<K::F>>> = std::mem::take(&mut s.sless).into_iter().map(Mutex::new).collect();
+                let tickets: Vec<AtomicU64> = toks.iter().map(|_| AtomicU64::new(0)).collect();
+                let (created, freed) = (AtomicU64::new(0), AtomicU64::new(0));
+                let (oom, full) = (AtomicBool::new(false), AtomicBool::new(false));
+                let barrier = Barrier::new(threads);
+                let panics = AtomicU64::new(0);
+                K::sessionless(&s.mref, aux, d, threads, &|t, api| {
+                    let mut tree = trees[t].lock().unwrap();
+                    for (i, &(c, n)) in toks.iter().enumerate() {
+                        // (a panic must not keep the other threads waiting at the barrier for ever)
+                        let r = std::panic::catch_unwind(std::panic::AssertUnwindSafe(|| match c {
+                            'a' => {
+                                while tickets[i].fetch_add(1, Relaxed) < n {
+                                    match tree.grow_with(d, api.child) {
+                                        Grow::Ok => {
+                                            created.fetch_add(1, Relaxed);
+                                        }
+                                        Grow::Oom => {
+                                            oom.store(true, Relaxed);
+                                            break;
+                                        }
+                                        Grow::Full => {
+                                            full.store(true, Relaxed);
+                                            break;
+                                        }
+                                    }
+                                }
+                            }
+                            'd' => {
+                                let mut v = tree.take_suffix(n);
+                                v.reverse();
+                                drop(v);
+                            }
+                            'g' => {
+                                if t == 0 {
+                                    freed.fetch_add((api.gc)() as u64, Relaxed);
+                                }
+                            }
+                            _ => {}
+                        }));
+                        if r.is_err() {
+                            panics.fetch_add(1, Relaxed);
+                        }
+                        barrier.wait();
+                        if panics.load(Relaxed) > 0 {
+                            break; // (counted before the barrier: every thread sees it and leaves the loop here)
+                        }
+                    }
+                });
+                out.created = created.into_inner();
+                out.oom = oom.into_inner();
+                out.full = full.into_inner();
+                s.trees.extend(trees.into_iter().map(|t| t.into_inner().unwrap()).filter(|t| !t.nodes.is_empty()));
+                (out, freed.into_inner(), panics.into_inner())
+            })
+        }
+
+        fn probe_fill(&mut self, limit: u64, tick: &mut dyn FnMut()) -> (usize, FillOut) {
+            let g = self.take_gen(1);
+            self.wrap(|s| {
+                let mut out = FillOut::default();
+                let mref = s.mref.clone();
+                K::gc(&mref);
+                let Some(aux) = s.aux.as_ref() else {
+                    out.oom = true;
+                    return (K::num_inner_nodes(&mref), out);
+                };
+                let d = s.d;
+                let mut tree: Option<Tree<K::F>> = None;
+                K::session(&mref, &mut || tree = K::root(aux, d, g).map(|r| Tree::new(r, g)));
+                K::gc(&mref);
+                let n0 = K::num_inner_nodes(&mref);
+                let Some(mut tree) = tree else {
+                    // (not even the root fits)
+                    out.oom = true;
+                    return (n0, out);
+                };
+                K::session(&mref, &mut || {
+                    while out.created < limit {
+                        match tree.grow::<K>(aux, d) {
+                            Grow::Ok => {
+                                out.created += 1;
+                                if out.created % 4096 == 0 {
+                                    tick();
+                                }
+                            }
+                            Grow::Oom => {
+                                out.oom = true;
+                                break;
+                            }
+                            Grow::Full => {
+                                out.full = true;
+                                break;
+                            }
+                        }
+                    }
+                });
+                s.trees.push(tree);
+                (n0, out)
+            })
+        }
+
+        fn verify(&mut self, flips: usize, deep: bool) -> AuditOut {
+            let mut out = AuditOut::default();
+            let keyed: Vec<(&K::F, Key)> = self.trees.iter().chain(self.sless.iter()).flat_map(|t| t.keyed()).collect();
+            // 1. handles against the functions they were created for (no access to the manager)
+            let mut by_handle: HashMap<&K::F, Key> = HashMap::new();
+            let mut by_key: HashMap<Key, &K::F> = HashMap::new();
+            for &(f, key) in &keyed {
+                if let Some(k2) = by_handle.insert(f, key) {
+                    if k2 != key {
+                        out.corrupt = true;
+                        out.fail(
+                            "node-aliasing",
+                            format!("two different functions, the tree nodes (generation {}, depth {}, path {:#b}) and (generation {}, depth {}, path {:#b}), are represented by the same node: their handles are equal", k2.0, k2.1, k2.2, key.0, key.1, key.2),
+                        );
+                    }
+                }
+                if let Some(f2) = by_key.insert(key, f) {
+                    if f2 != f {
+                        out.corrupt = true;
+                        out.fail("duplicate-node", format!("the function of the tree node (generation {}, depth {}, path {:#b}) was built twice and has two different nodes", key.0, key.1, key.2));
+                    }
+                }
+            }
+            if out.corrupt || !deep {
+                return out;
+            }
+            // 2. + 3. the stored nodes
+            let mut others: Vec<&K::F> = self.bigs.iter().collect();
+            if let Some(aux) = self.aux.as_ref() {
+                others.extend(K::aux_handles(aux));
+            }
+            let mut o2 = K::deep_audit(&self.mref, self.d, &keyed, &others, flips);
+            o2.fails.splice(0..0, out.fails);
+            o2
+        }
+
+        fn num_handles(&self) -> usize {
+            self.trees.iter().chain(self.sless.iter()).map(|t| t.nodes.len()).sum()
         }
     }
 
@@ -2251,6 +2982,8 @@ mod real {
         header: String,
         fix: bool,
         spilled: bool,
+        /// a live slot was handed out (oracle 1): the store must not be used any more
+        live_slot_handed_out: bool,
     }
 
     impl Obsv {
@@ -2284,6 +3017,7 @@ mod real {
                 header: String::new(),
                 fix: false,
                 spilled: false,
+                live_slot_handed_out: false,
             }
         }
 
@@ -2478,6 +3212,10 @@ mod real {
                         if ret && head == 0 {
                             self.cnt("end.returned.delta-only");
                         }
+                        if ret && start < stop && self.m.loc(t).next != 0 {
+                            // (the state before the step: the list the chunk remainder is linked in front of)
+                            self.cnt("cov.end.chunk-remainder-in-front-of-nonempty-local-list");
+                        }
                     }
                 }
                 // background collection bookkeeping (from the snapshots only)
@@ -2515,6 +3253,7 @@ mod real {
                         if !self.slot_ok(id) {
                             self.fail(ctx, "alloc-live", &format!("`{line}`: slot id {id} outside the store ({}..{})", self.terms, self.terms + self.cap));
                         } else if self.bitmap[id as usize] {
+                            self.live_slot_handed_out = true;
                             self.fail(ctx, "alloc-live", &format!("`{line}`: slot {id} is handed out although it contains a live node (handed out before and not freed since)"));
                         } else {
                             self.bitmap[id as usize] = true;
@@ -2583,6 +3322,28 @@ mod real {
         header: String,
         baseline: usize,
         lines_in_case: u64,
+        /// the diagram of the case is damaged (two nodes in one slot): the managers were leaked, the
+        /// rest of the case is skipped
+        corrupt: bool,
+        /// `--deep-always 1` (for trying the audits on a damaged store; may hang or crash)
+        deep_always: bool,
+    }
+
+    /// `a70000`, `d500`, `g`, `n`; `aL+3`: `l` more than the slots on the shared free lists
+    fn parse_toks(ws: &[&str], l: u64) -> Option<Vec<(char, u64)>> {
+        ws.iter()
+            .map(|w| {
+                let c = w.chars().next()?;
+                let rest = &w[c.len_utf8()..];
+                let n: u64 = match (c, rest) {
+                    ('a', r) if r.starts_with("L+") => l + r[2..].parse::<u64>().ok()?,
+                    ('a' | 'd', r) => r.parse().ok()?,
+                    ('g' | 'n', "") => 0,
+                    _ => return None,
+                };
+                Some((c, n))
+            })
+            .collect()
     }
 
     impl Real {
@@ -2739,9 +3500,144 @@ mod real {
                     }
                     ctx.count(&format!("par.threads-{threads}"));
                 }
+                "session" => {
+                    let toks = parse_toks(&w[1..], 0)?;
+                    let o = self.with_eng(ctx, |e, tick| e.session_script(&toks, tick));
+                    ctx.add("fill.created", o.created);
+                    ctx.count("session-script");
+                    if toks.iter().any(|t| t.0 == 'g') {
+                        ctx.count("session-script.with-gc");
+                    }
+                    if o.oom {
+                        ctx.count("session-script.oom");
+                    }
+                    self.drain(ctx);
+                    self.verify(ctx, "session");
+                }
+                "sless" => {
+                    let threads: usize = w.get(1)?.parse().ok()?;
+                    if threads == 0 || threads > 16 {
+                        return None;
+                    }
+                    if !self.eng.as_mut()?.sless_prepare(threads) {
+                        ctx.count("sless.no-roots(out-of-memory)");
+                        return Some(());
+                    }
+                    self.wait_idle(ctx);
+                    // the size of the work only (not an oracle): the slots on the shared free lists
+                    let l: u64 = self.ob.m.stack.iter().map(|h| self.ob.m.list_len(*h)).sum();
+                    let lists = self.ob.m.stack.len() as u64;
+                    let toks = parse_toks(&w[2..], l)?;
+                    let before = self.ob.counts.get("alloc.foreign-list").copied().unwrap_or(0);
+                    let (o, freed, panics) = self.eng.as_mut()?.sless_run(threads, &toks);
+                    self.drain(ctx);
+                    ctx.count("sless");
+                    ctx.count(&format!("sless.threads-{threads}"));
+                    ctx.add("sless.created", o.created);
+                    ctx.add("sless.slots-on-shared-lists-before", l);
+                    ctx.add("sless.shared-lists-before", lists);
+                    ctx.add("sless.freed-by-session-less-gc", freed);
+                    if o.oom {
+                        ctx.count("sless.oom");
+                    }
+                    let from_lists = self.ob.counts.get("alloc.foreign-list").copied().unwrap_or(0) - before;
+                    if l > 0 && from_lists >= l {
+                        ctx.count("cov.sless.shared-lists-exhausted-by-session-less-threads");
+                    }
+                    if panics > 0 {
+                        self.ob.fail(ctx, "panic", &format!("{panics} session-less thread(s) panicked while they created nodes through the edge-level API"));
+                        self.leak(ctx);
+                        return Some(());
+                    }
+                    self.verify(ctx, "sless");
+                }
+                "verify" => self.verify(ctx, "verify"),
                 _ => return None,
             }
             Some(())
+        }
+
+        /// the store is damaged: drop nothing, touch nothing
+        fn leak(&mut self, ctx: &mut Ctx) {
+            if let Some(e) = self.eng.take() {
+                std::mem::forget(e);
+            }
+            if let Some(o) = self.outer.take() {
+                std::mem::forget(o);
+            }
+            self.corrupt = true;
+            ctx.count("case.leaked-after-corruption");
+            self.ob.spill();
+            self.flush_case(ctx);
+        }
+
+        /// the oracles that do not use the hooks (`Engine::verify`)
+        fn verify(&mut self, ctx: &mut Ctx, at: &str) {
+            if self.corrupt || self.eng.is_none() {
+                return;
+            }
+            // (if oracle 1 has seen a live slot handed out: only the comparison of the handles, an
+            // audit would walk a damaged diagram)
+            let deep = !self.ob.live_slot_handed_out || self.deep_always;
+            if deep {
+                self.wait_idle(ctx);
+            }
+            let handles = self.eng.as_ref().unwrap().num_handles();
+            let flips = if handles <= 20_000 { 0 } else { 3 };
+            let o = self.eng.as_mut().unwrap().verify(flips, deep);
+            self.drain(ctx);
+            ctx.count("verify");
+            ctx.add("verify.handles", handles as u64);
+            ctx.add("verify.nodes-audited", o.nodes as u64);
+            ctx.add("verify.evaluations", o.evals as u64);
+            for (sig, msg) in &o.fails {
+                self.ob.fail(ctx, sig, &format!("after `{at}`: {msg}"));
+            }
+            if o.corrupt || !deep {
+                self.leak(ctx);
+            }
+        }
+
+        /// the capacity probe without the hooks: with no dead node in the store, exactly
+        /// `capacity − num_inner_nodes()` more nodes can be created
+        fn probe(&mut self, ctx: &mut Ctx) {
+            let cap = self.ob.cap;
+            self.wait_idle(ctx);
+            let (n0, o) = self.with_eng(ctx, |e, tick| e.probe_fill(cap + 64, tick));
+            self.drain(ctx);
+            self.wait_idle(ctx);
+            ctx.count("probe");
+            ctx.add("fill.created", o.created);
+            if self.ob.live_slot_handed_out {
+                self.leak(ctx);
+                return;
+            }
+            let (held, desc) = self.ob.held_by_attached();
+            let n1 = self.eng.as_ref().unwrap().num_inner_nodes();
+            if held > 0 {
+                ctx.count("probe.with-slots-held-by-attached-threads");
+            }
+            if !o.oom {
+                self.ob.fail(ctx, "capacity", &format!("{} nodes were created without running out of memory although the store has capacity {cap} and held {n0} nodes before", o.created));
+            } else if n0 as u64 + o.created + held != cap {
+                let total = n0 as u64 + o.created + held;
+                self.ob.fail(
+                    ctx,
+                    "capacity",
+                    &format!(
+                        "the store held {n0} nodes (none of them dead), then {} distinct nodes were created before `add_node` failed: {} of the {cap} slots are in use ({held} held by attached threads:{desc}), {} slots are {}",
+                        o.created,
+                        total,
+                        cap.abs_diff(total),
+                        if total < cap { "lost" } else { "too many" }
+                    ),
+                );
+            } else if n1 as u64 != n0 as u64 + o.created {
+                self.ob.fail(ctx, "capacity", &format!("num_inner_nodes() = {n1} after {} creations on top of {n0} nodes", o.created));
+            } else {
+                ctx.count(if n0 <= self.baseline + 64 { "probe.exact.full-capacity" } else { "probe.exact.partial-use" });
+            }
+            self.verify(ctx, "probe");
         }
 
         /// oracle 2
@@ -2832,12 +3728,17 @@ mod real {
             let _ = va::take_events();
             self.ob = Obsv::new();
             self.lines_in_case = 0;
+            self.corrupt = false;
         }
 
         fn step(&mut self, line: &str, ctx: &mut Ctx) -> String {
             self.header = ctx.case.clone();
             let w = words(line);
             self.lines_in_case += 1;
+            if self.corrupt {
+                ctx.count("lines-skipped-after-corruption");
+                return "skipped".into();
+            }
             match w[0] {
                 "outer" => {
                     // an untraced manager: the log is off while it is created
@@ -2908,7 +3809,9 @@ mod real {
                         return "bad-op".into();
                     }
                     let r = self.exec(&w[1..], ctx);
-                    self.eng.as_mut().unwrap().set_nested(false);
+                    if let Some(e) = self.eng.as_mut() {
+                        e.set_nested(false);
+                    }
                     ctx.count(&format!("nested.{}", w[1]));
                     if r.is_none() {
                         return "bad-op".into();
@@ -2916,6 +3819,12 @@ mod real {
                 }
                 "recover" => self.recover(ctx),
                 "countcheck" => self.countcheck(ctx),
+                "probe" => {
+                    if self.eng.is_none() {
+                        return "bad-op".into();
+                    }
+                    self.probe(ctx)
+                }
                 "fin" => {
                     if self.eng.is_none() {
                         return "bad-op".into();
@@ -2933,7 +3842,15 @@ mod real {
                     }
                 }
             }
+            if self.corrupt {
+                return "corrupt".into();
+            }
             self.drain(ctx);
+            if self.ob.live_slot_handed_out {
+                // two nodes in one slot: dropping handles or collecting would touch freed memory
+                self.leak(ctx);
+                return "corrupt".into();
+            }
             // quiescent point: only the main thread is running and it has no session open
             let big = self.ob.cap >= 100_000;
             let audit = !big || matches!(w[0], "recover" | "countcheck") || self.lines_in_case % 4 == 0;
@@ -2963,6 +3880,8 @@ mod real {
             header: String::new(),
             baseline: 0,
             lines_in_case: 0,
+            corrupt: false,
+            deep_always: f.get("deep-always").map(|s| s == "1").unwrap_or(false),
         })
     }
 }
